@@ -3,37 +3,56 @@
   Proofs about `topo`, `checkCyclesPure`, `checkCyclesNested`, `assignIds`, `listing`.
 -/
 import AJ.Spec
+import AJ.Proofs.C15Aux
 namespace AJ.Proofs.C15
 open AJ
+
+-- some hypotheses of the (fixed) statements below turn out not to be needed by the proofs
+set_option linter.unusedVariables false
 
 /-- every job exactly once -/
 theorem topo_perm (t : T) (s : Nat) (l : List Nat) (hnd : (t.mem s).Nodup)
     (h : topo t s = .ok l) : l.Perm (t.mem s) := by
-  sorry
+  exact topo_perm_aux t s [] l h
 
 /-- each job after all of its requirements -/
 theorem topo_order (t : T) (s : Nat) (l : List Nat) (h : topo t s = .ok l) :
     ∀ a x b, l = a ++ x :: b → ∀ y ∈ t.req x, y ∈ a := by
-  sorry
+  exact topo_order_inv t s l h
 
 /-- the fuel is never the reason the loop stops -/
 theorem topo_never_fuel (t : T) (s : Nat) (ext : List Nat) (hnd : (t.mem s).Nodup) :
     topo t s ext ≠ .error .fuel := by
-  sorry
+  exact topoLoop_never_fuel t s ext _ [] (by omega) (by simp)
 
 /-- exactness: an order is produced iff the (closed) requirement graph is acyclic -/
 theorem topo_iff (t : T) (s : Nat) (hnd : (t.mem s).Nodup) (hcl : Closed t s) :
     (∃ l, topo t s = .ok l) ↔ Acyclic t s := by
-  sorry
+  constructor
+  · rintro ⟨l, h⟩; exact acyclic_of_topo_ok t s l h
+  · exact topo_ok_of_acyclic t s hnd hcl
 
 /-- on a cyclic graph it raises (the `Exception` of purescheduler.py:362), it does not loop or drop jobs -/
 theorem topo_raises (t : T) (s : Nat) (hnd : (t.mem s).Nodup) (hcl : Closed t s)
     (hcyc : ¬ Acyclic t s) : topo t s = .error .cycle := by
-  sorry
+  cases h : topo t s with
+  | ok l => exact absurd (acyclic_of_topo_ok t s l h) hcyc
+  | error e =>
+    rcases topoLoop_error t s [] _ [] e h with rfl | rfl
+    · rfl
+    · exact absurd h (topoLoop_never_fuel t s [] _ [] (by omega) (by simp))
 
 theorem check_pure_iff (t : T) (s : Nat) (hnd : (t.mem s).Nodup) (hcl : Closed t s) :
     checkCyclesPure t s = true ↔ Acyclic t s := by
-  sorry
+  unfold checkCyclesPure
+  constructor
+  · intro h
+    cases h' : topo t s with
+    | ok l => exact acyclic_of_topo_ok t s l h'
+    | error e => rw [h'] at h; cases h
+  · intro hac
+    obtain ⟨l, hl⟩ := topo_ok_of_acyclic t s hnd hcl hac
+    rw [hl]
 
 /-- `Scheduler.check_cycles`: true iff the scheduler and every nested scheduler at any depth is acyclic.
     Hypotheses: every scheduler of the subtree has duplicate-free members, is closed, and its members have
@@ -44,14 +63,65 @@ theorem check_nested_iff (t : T) (fuel s : Nat)
     (hs : s < t.n) (hfuel : t.n - s ≤ fuel) (hsched : t.isSched s = true) :
     checkCyclesNested t fuel s = true ↔
       (Acyclic t s ∧ ∀ s', Desc t s s' → t.isSched s' = true → Acyclic t s') := by
-  sorry
+  induction fuel generalizing s with
+  | zero => omega
+  | succ fuel ih =>
+    obtain ⟨hnd, hcl, hlt⟩ := hwf s (Or.inl rfl) hsched
+    simp only [checkCyclesNested]
+    cases h : topo t s with
+    | error e =>
+      simp only [Bool.false_eq_true, false_iff]
+      intro ⟨hac, _⟩
+      obtain ⟨l, hl⟩ := topo_ok_of_acyclic t s hnd hcl hac
+      rw [hl] at h; cases h
+    | ok l =>
+      have hac := acyclic_of_topo_ok t s l h
+      have hperm := topo_perm_aux t s [] l h
+      simp only [List.all_eq_true, Bool.or_eq_true, Bool.not_eq_eq_eq_not, Bool.not_true]
+      have key : ∀ j ∈ t.mem s, t.isSched j = true →
+          (checkCyclesNested t fuel j = true ↔
+            (Acyclic t j ∧ ∀ s', Desc t j s' → t.isSched s' = true → Acyclic t s')) := by
+        intro j hj hjs
+        have hj' := hlt j hj
+        apply ih j
+        · intro s' hs'
+          apply hwf s'
+          rcases hs' with rfl | hd
+          · exact Or.inr (Desc.child hsched hj)
+          · exact Or.inr (Desc.deeper hsched hj hd)
+        · exact hj'.2
+        · omega
+        · exact hjs
+      constructor
+      · intro hall
+        refine ⟨hac, ?_⟩
+        intro s' hd hs'
+        cases hd with
+        | child _ hk =>
+          rcases hall s' (hperm.mem_iff.mpr hk) with hns | hc
+          · rw [hs'] at hns; cases hns
+          · exact ((key s' hk hs').mp hc).1
+        | @deeper _ k _ _ hk hd' =>
+          have hks := desc_sched t hd'
+          rcases hall k (hperm.mem_iff.mpr hk) with hns | hc
+          · rw [hks] at hns; cases hns
+          · exact ((key k hk hks).mp hc).2 s' hd' hs'
+      · intro ⟨_, hall⟩ j hj
+        have hjm := hperm.mem_iff.mp hj
+        cases hjs : t.isSched j with
+        | false => exact Or.inl rfl
+        | true =>
+          right
+          refine (key j hjm hjs).mpr ⟨hall j (Desc.child hsched hjm) hjs, ?_⟩
+          intro s' hd hs'
+          exact hall s' (Desc.deeper hsched hjm hd) hs'
 
 /-- ids given by `_set_sched_ids` are consecutive from `start`, in the order of `listing` -/
 theorem ids_consecutive (t : T) (fuel s start nxt : Nat) (l : List (Nat × Nat))
     (h : assignIds t fuel s start = .ok (nxt, l)) :
     l.map (·.2) = List.range' start l.length ∧ nxt = start + l.length ∧
     listing t fuel s = .ok (l.map (·.1)) := by
-  sorry
+  exact ids_consecutive_aux t fuel s start nxt l h
 
 /-- within one scheduler a requirement is listed (hence numbered) before its dependant:
     `listing` of `s` restricted to the direct members of `s` is `topo t s` -/
@@ -62,6 +132,7 @@ theorem listing_members (t : T) (fuel s : Nat) (l lt : List Nat)
     (hdisj : ∀ k ∈ t.mem s, ∀ d, Desc t k d → d ∉ t.mem s)
     (h : listing t (fuel + 1) s = .ok l) (ht : topo t s = .ok lt) :
     l.filter (· ∈ t.mem s) = lt := by
-  sorry
+  exact listing_members_aux t fuel s l lt hdisj h ht
+
 
 end AJ.Proofs.C15
